@@ -45,7 +45,8 @@ def run(ctx):
             ctx.ob('C32-D1', MAIN, name, 'inside the output directory created by this run (create_dir_all under the exists/force guard)', True, site=loc(t['span']))
             continue
         if 'with_extension' in d:
-            ex = CallGuard(r'Path::exists$', 'false', argpred=lambda f, b2, t2: 'with_extension' in T.call_term(f, b2), name='<sidecar path>.exists() = false')
+            # the test must be made on the very path that is written (same path expression), not on a look-alike derived from another path
+            ex = CallGuard(r'Path::exists$', 'false', argpred=lambda f, b2, t2, _d=d: _d in T.call_term(f, b2), name='<sidecar path>.exists() = false (same path as the sink)')
         else:
             ex = CallGuard(r'Path::exists$', 'false', argpred=lambda f, b2, t2: bool(re.search(OUT, T.call_term(f, b2))) and 'with_extension' not in T.call_term(f, b2), name='output.exists() = false')
         guards = [g_force] if REMOVE.search(t['fd']) else [ex, g_force]
